@@ -33,19 +33,21 @@ pub struct Error {
     pub span: Span,
 }
 
-impl From<pest::error::Error<Rule>> for Error {
-    fn from(error: pest::error::Error<Rule>) -> Self {
-        match &error.variant {
-            pest::error::ErrorVariant::ParsingError { positives, .. } => Error {
-                message: format!("expected {positives:?}"),
-                src: error.line().to_string(),
-                span: error.location.into(),
-            },
-            pest::error::ErrorVariant::CustomError { message } => Error {
-                message: message.clone(),
-                src: error.line().to_string(),
-                span: error.location.into(),
-            },
+impl Error {
+    /// Builds the diagnostic for a pest error raised while parsing `input`. The label is an
+    /// offset into the whole input, so the whole input is what the diagnostic carries.
+    fn from_pest(error: pest::error::Error<Rule>, input: &str) -> Self {
+        let message = match &error.variant {
+            pest::error::ErrorVariant::ParsingError { positives, .. } => {
+                format!("expected {positives:?}")
+            }
+            pest::error::ErrorVariant::CustomError { message } => message.clone(),
+        };
+
+        Error {
+            message,
+            src: input.to_string(),
+            span: error.location.into(),
         }
     }
 }
@@ -1513,7 +1515,8 @@ impl AstNode for ChainSpecificBlock {
 /// let program = parse_string("tx swap() {}").unwrap();
 /// ```
 pub fn parse_string(input: &str) -> Result<Program, Error> {
-    let pairs = Tx3Grammar::parse(Rule::program, input)?;
+    let pairs =
+        Tx3Grammar::parse(Rule::program, input).map_err(|e| Error::from_pest(e, input))?;
     Program::parse(pairs.into_iter().next().unwrap())
 }
 
